@@ -295,16 +295,23 @@ Definition chain_reducer_fit : list gev :=
     ev [] (AChk (VCheckWl WWindow));
     ev [] (AMut (A_fitted true)) ].
 
-(* sktime/forecasting/compose/_reduce.py : _DirectReducer._fit *)
+(* sktime/forecasting/compose/_reduce.py : _DirectReducer._fit
+   (self._transform and _sliding_window_transform followed) *)
 Definition chain_direct_fit : list gev :=
   [ ev [] (AChk VFhKnown);
     ev [(GFhOos, false)] (AChk VRaise);
+    ev [(GFhOos, true)] (AChk VFhKnown);
+    ev [(GFhOos, true)] (AChk (VCheckWl WWindow));
+    ev [(GFhOos, true); (GReduceTooShort, true)] (AChk VRaise);
     ev [(GFhOos, true)] (AChk VFhKnown) ].
 
 (* sktime/forecasting/compose/_reduce.py : _MultioutputReducer._fit *)
 Definition chain_multioutput_fit : list gev :=
   [ ev [] (AChk VFhKnown);
-    ev [(GFhOos, false)] (AChk VRaise) ].
+    ev [(GFhOos, false)] (AChk VRaise);
+    ev [(GFhOos, true)] (AChk VFhKnown);
+    ev [(GFhOos, true)] (AChk (VCheckWl WWindow));
+    ev [(GFhOos, true); (GReduceTooShort, true)] (AChk VRaise) ].
 
 (* sktime/forecasting/compose/_reduce.py : _sliding_window_transform *)
 Definition chain_sliding_window_transform : list gev :=
